@@ -159,6 +159,15 @@ public:
      */
     void setNamespacePrefix(const std::string &prefix);
 
+    /**
+     * @brief Set the value of this XmlAttribute.
+     *
+     * Set the value of this XmlAttribute.
+     *
+     * @param value A @c std::string with the new value of the attribute.
+     */
+    void setValue(const std::string &value);
+
 private:
     struct XmlAttributeImpl; /**< Forward declaration for pImpl idiom, @private. */
     XmlAttributeImpl *mPimpl; /**< Private member to implementation pointer, @private. */
